@@ -4,7 +4,7 @@ from .py2coq import Fn, Z, B
 from . import py2coq, core
 from . import futb_harness as H
 
-PSTATE = ['PMissing', 'PShutdown', 'PNoConn', 'PBusy', 'PFail', 'PSendFail', 'PHealthy']
+PSTATE = ['PMissing', 'PShutdown', 'PNoConn', 'PBusy', 'PFail', 'PSendFail', 'PHealthy', 'PNoConnSlow']
 DECISION = ['DRetry', 'DRethrow', 'DIgnore', 'DNextHost']
 EKIND = ['KReadTimeout', 'KWriteTimeout', 'KUnavailable', 'KOverloaded', 'KBootstrapping', 'KTruncate', 'KServerError',
          'KConnExc', 'KConnShutdown']
@@ -165,6 +165,9 @@ def random_scenario(rng, weights=None, max_hosts=4, max_ops=14, env_changes=True
         sc['markers'] = True          # statement with a bind marker (other branch of PreparedStatement.from_message)
     if sc['target'] is None and rng.random() < 0.12:
         sc['analytics'] = {'master': rng.choice([None] + list(range(n)))}
+    if rng.random() < 0.15:
+        sc['timeout'] = True
+        sc['pools'] = [7 if (p != 6 and rng.random() < 0.5) else p for p in sc['pools']]
     sc['metrics'] = rng.random() < 0.4    # Cluster(metrics_enabled=True)
     sc['nids'] = rng.choice([1, 1, 2, 4, 300])   # size of the connections' stream-id deque (id 0 first, FIFO recycling)
     if rng.random() < 0.5:
